@@ -11,7 +11,11 @@ def run(ctx, model_ok):
     _level2.run(ctx, oracle.sweep, 90, 3000, [
         "caller-owned numpy arrays and aliasing (np.shares_memory) are outside the list model: observed by the snapshot oracle",
         "geometry/excitation/pixel/style attributes are not written by getBH_level2 at all (no assignment sites in the AST other than "
-        "_position/_orientation): observed by the snapshot oracle"])
+        "_position/_orientation): observed by the snapshot oracle",
+        "level2_preserves_state holds by definition of the model's `restore` once the three regenerated flags are true (restore inside a `finally` directly after the tiling, "
+        "no raising statement in between, restore from saved arrays): its content is the AST extraction translate/gen.py:gen_Exits, which looks at top-level statements of "
+        "getBH_level2 only — that the finally-block restores EVERY tiled object, that no callee (getBH_level1, field functions, check_chirality's in-place vertex swap) writes "
+        "object state, and that the inputs checks raising before the tiling leave nothing behind, is observed by the snapshot oracle, not proved; Model/Level2State is not run by the driver"])
 
 
 replay = _level2.replay
